@@ -116,7 +116,11 @@ type phMaker func(a int, script []byte, opt func(t *transaction.Transaction)) (*
 
 func phSpecs() []phSpec {
 	committee := func(n *chainx.Node, method string, args ...any) (*transaction.Transaction, error) {
-		t, err := n.CallTx([]neotest.Signer{n.Committee}, nativehashes.PolicyContract, method, args...)
+		sg, err := pwCommittee(n) // the elected committee where the standby one is out of office
+		if err != nil {
+			return nil, err
+		}
+		t, err := n.CallTx(sg, nativehashes.PolicyContract, method, args...)
 		if err != nil {
 			return nil, err
 		}
@@ -398,6 +402,11 @@ func (c *stateCtx) buildPoolHist() {
 			}
 			if err := n.AddBytes(bnBytes); err != nil {
 				return
+			}
+			for _, bt := range bnDec.Transactions {
+				if err := n.CheckHalt(bt.Hash()); err != nil && strings.Contains(err.Error(), "invalid committee signature") {
+					return // block N elects another committee than the one that signed its transaction: the history would be a twin of "unaffected"
+				}
 			}
 			cvN, err := c.viewOf(n, append(append([]*block.Block{}, hist...), bnDec))
 			if err != nil {
